@@ -549,6 +549,79 @@ def _cn2_and_catalogue_modes(chk):
             "B4 evaluation (numpy.linalg.eig trusted)", th_catalogue_modes)
 
 
+def _admissible_domain(chk):
+    """'for every admissible mass parameter ... each of the five libration points is returned': the constructors' own guards
+    accept the whole admissible domain 0 < mu <= 1/2 (the equal-mass end included) and reject nothing inside it"""
+    import hiten.system.libration.collinear as col
+    import hiten.system.libration.triangular as tri
+    import hiten.system.libration.base as lbase
+    from pyvc.core import real_self
+
+    def body_for(mod, cls_name):
+        def body(ctx):
+            mu = ctx.real("mu")
+            ctx.assume(z3.And(zv(mu) > 0, zv(mu) <= Fraction(1, 2)), silent=True)
+            saved = lbase.LibrationPoint.__init__
+            lbase.LibrationPoint.__init__ = lambda self, system: None
+            try:
+                cls = getattr(mod, cls_name)
+                try:
+                    cls.__init__(real_self(cls), types.SimpleNamespace(mu=mu))
+                except symx.StopPath:
+                    raise
+                except Exception as e:
+                    if symx.engine_fault(e):
+                        raise
+                    ctx.fail(f"{cls_name}(system) is constructed for every 0 < mu <= 1/2", repr(e))
+                    return
+                ctx.check(f"{cls_name}(system) is constructed for every 0 < mu <= 1/2", True)
+            finally:
+                lbase.LibrationPoint.__init__ = saved
+        return body
+    for mod, cls_name in ((col, "L1Point"), (col, "L2Point"), (col, "L3Point"), (tri, "L4Point"), (tri, "L5Point")):
+        nm = f"{cls_name}(system) is constructed for every 0 < mu <= 1/2"
+        label = f"hiten.system.libration.{'collinear' if mod is col else 'triangular'}:{cls_name}.__init__"
+        ex = Explorer(label, max_paths=200)
+
+        def run_(ex=ex, mod=mod, cls_name=cls_name, nm=nm):
+            ex.run(body_for(mod, cls_name))
+            return ex.verdict(nm)
+        chk.obl(nm + " (the guard rejects nothing inside the admissible domain)", "K2 path VC (raises-contract)", [label],
+                "B1 z3", run_)
+
+
+def _root_finder_scale(chk):
+    """Bounded stand-in (NOT a proof; the convergence of Brent's method stays in the trusted base): the accuracy of the
+    returned root must not depend on the SCALE of the function - the gamma quintic is proportional to mu, which ranges
+    over nine decades in the catalogue"""
+    import hiten.algorithms.utils.rootfinding as rf
+
+    def th():
+        worst = None
+        for r in (0.0625, 0.15, 0.99, 1.2):
+            for s_ in (1.0, 1e-4, 1e-8, 1e-12, 1e-16):
+                for lo, hi in ((0.05, 0.7), (0.3, 0.5), (0.011, 0.013)):
+                    f = lambda x, r=r, s_=s_: s_ * (x - r) * (1.0 + (x - r) ** 2 + 0.5 * (x - r))
+                    x = rf.solve_bracketed_brent(f, r - lo, r + hi)
+                    if x is None:
+                        raise Refuted("solve_bracketed_brent returns no root for a bracket with a sign change",
+                                      f"root {r}, scale {s_}, bracket [{r - lo}, {r + hi}]")
+                    err = abs(float(x) - r)
+                    if worst is None or err > worst[0]:
+                        worst = (err, r, s_, lo, hi)
+        if worst[0] > 1e-9:
+            err, r, s_, lo, hi = worst
+            raise Refuted("solve_bracketed_brent: the accuracy of the root depends on the scale of the function",
+                          f"f(x) = {s_} * (x - {r}) * (1 + ...) on [{r - lo}, {r + hi}]: |x - root| = {err:.3g} (requested xtol "
+                          f"1e-12; the same function at scale 1 is solved to 1e-12)",
+                          inputs={"root": r, "scale": s_, "bracket": [r - lo, r + hi]})
+    chk.bounded.append({"what": "solve_bracketed_brent on 60 scaled cubic instances (roots 0.06..1.2, scales 1..1e-16)",
+                        "bound": "60 float instances", "counted_as_proved": False})
+    chk.obl("[bounded: 60 float instances] solve_bracketed_brent: |x - root| <= 1e-9 whatever the scale of f (scales 1 .. 1e-16, "
+            "as the gamma quintic scales with mu)", "K5 closed (bounded stand-in, float)",
+            ["hiten.algorithms.utils.rootfinding:solve_bracketed_brent"], "B4 exact evaluation", th)
+
+
 def run(chk):
     loader.install()
     chk.under_contract(
@@ -571,3 +644,5 @@ def run(chk):
     _brackets(chk)
     _linear(chk)
     _cn2_and_catalogue_modes(chk)
+    _admissible_domain(chk)
+    _root_finder_scale(chk)
